@@ -978,6 +978,7 @@ impl<'a, 'b> GeneratorState<'a> {
             Ok(None)
         } else {
             self.flags = FlagsState::Unknown;
+            self.carry_flag_ok = false;
             match &expr {
                 ExprType::Immediate(v) => {
                     if immediate_special {
